@@ -8,7 +8,7 @@ MANIFEST = dict(
    note="Trusted: Lean kernel; axioms propext/Classical.choice/Quot.sound only; the translator (regexp/syntax AST -> Lean term; validated by comparing Re.accepts with Go regexp on every generated case); the specification automata in Model/FormatSpec.lean as the reading of the documented formats; Go regexp semantics as the reading of a JSON-Schema pattern. Parser-based validators (netip.ParseAddr/ParsePrefix, time.Parse) are modelled by hand transcription (netip: by the definition itself) validated on generated cases and tied by a go/ast structure fingerprint of the validator functions; time.Parse(RFC3339) has no all-strings theorem. IPv6 family on strings with '.' or '%': two independent readings of RFC 4291 (automaton and list-based) vs the library on generated cases.",
    design="DESIGN.md §5 C20; notes/C20.md")
 
-MODULES = ["Gozod.Proofs.C20", "Gozod.Proofs.C20DateTime", "Gozod.Proofs.C20Parsers", "Gozod.Proofs.C20Rfc3339", "Gozod.Proofs.C20V6Dot", "Gozod.Proofs.C20Base64URL", "Gozod.Proofs.C20Netip", "Gozod.Proofs.C20IsoTime"]
+MODULES = ["Gozod.Proofs.C20", "Gozod.Proofs.C20DateTime", "Gozod.Proofs.C20Parsers", "Gozod.Proofs.C20Rfc3339", "Gozod.Proofs.C20V6Dot", "Gozod.Proofs.C20Base64URL", "Gozod.Proofs.C20Netip", "Gozod.Proofs.C20IsoTime", "Gozod.Proofs.C20Netip6"]
 REGEX_FORMATS = ["ipv4", "hex", "e164", "mac", "macdash", "base64", "uuid", "uuidv4", "uuidv6", "uuidv7", "guid"]
 OPTION_JOBS = ["macdot"] + ["tmo_" + p for p in "nm01239"]
 DTO = ["%s_%s_%s" % (p, o, l) for p in "nm01239" for o in "01" for l in "01"]   # IsoDateTime(options): precision x offset x local
@@ -43,7 +43,11 @@ THEOREMS = (["Gozod.C20.bisim_sound", "Gozod.C20.bisim_sound_full"]
        "Gozod.C20.c20_cidrv4_netip"]
     # the default IsoTime(): exported pattern = definition; validator's own pattern = definition outside hh:mm:ss ',' digit+ (witness)
     + ["Gozod.C20.extend_run", "Gozod.C20.isoTimeC_run", "Gozod.C20.c20_isotime_pattern", "Gozod.C20.c20_isotime_partial", "Gozod.C20.c20_isotime_witness",
-       "Gozod.C20.c20_isotime_validator_vs_pattern"])
+       "Gozod.C20.c20_isotime_validator_vs_pattern"]
+    # validator side of IPv6 / CIDRv6: netip.parseIPv6 transcribed from the Go source = the RFC 4291 automaton, all strings
+    + ["Gozod.C20.sim5", "Gozod.C20.oct_step", "Gozod.C20.doomed14", "Gozod.C20.dispatch", "Gozod.C20.in_group", "Gozod.C20.head_sim",
+       "Gozod.C20.parseIPv6_run", "Gozod.C20.addrKind6_of_run", "Gozod.C20.c20_ipv6_netip", "Gozod.C20.prefixBits128_run", "Gozod.C20.cidr6_split",
+       "Gozod.C20.c20_cidrv6_netip"])
 
 # certificate job -> format name of the correspondence
 JOB_FORMAT = {"isodatetime_optsec": "isodatetime", "isodatetime_partial": "isodatetime", "base64url_partial": "base64url",
